@@ -20,7 +20,7 @@ def _jobs(ctx):
     n = 40 if q else 500
     return (sc.corpus_job(ctx) + [(f'rates{k}', ['rates_sto', n]) for k in range(8 if q else 12)]
             + [(f'ship{k}', ['shipped_sto', n]) for k in range(3 if q else 8)] + [(f'fixrec{k}', ['fixrec_sto', n]) for k in range(3 if q else 6)]
-            + [('observed', ['monitored', n]), ('named', ['composed', n])])
+            + [('observed', ['monitored', n]), ('named', ['composed', n]), ('sibling', ['isolate_sto', n])])
 
 
 def _nt(e):
@@ -34,7 +34,7 @@ def tie(ctx):
 
 
 def search(ctx, hint):
-    return sc.search_with(ctx, hint, [(f's{k}', ['rates_sto', 200]) for k in range(5)] + [(f'f{k}', ['fixrec_sto', 200]) for k in range(5)])
+    return sc.search_with(ctx, hint, [(f's{k}', ['rates_sto', 200]) for k in range(4)] + [('i', ['isolate_sto', 200]), ('m', ['monitored', 200])] + [(f'f{k}', ['fixrec_sto', 200]) for k in range(5)])
 
 
 def replay(ctx, rep):
